@@ -142,13 +142,13 @@ theorem WInvX.sameCore {x : Option Nat} {w w' : World} (h : WInvX x w) (s : Same
   case connecting =>
     intro p pr' hp' hs
     obtain ⟨pr, a, _, c, _, _, _, _, g, _⟩ := hpr p pr' hp'
-    obtain ⟨cr, cc, i1, i2⟩ := h.connecting p pr a (by rw [← c]; exact hs)
-    exact ⟨cr, cc, by rw [g]; exact i1, by rw [s.connReqs]; exact i2⟩
+    obtain ⟨cr, cc, i1, i2, i3⟩ := h.connecting p pr a (by rw [← c]; exact hs)
+    exact ⟨cr, cc, by rw [g]; exact i1, by rw [s.connReqs]; exact i2, fun d hd => by rw [s.fired]; exact ⟨(i3 d hd).1, (hp _ _).mpr (i3 d hd).2⟩⟩
   case connReq =>
     rw [s.connReqs, s.fired, s.ents]
     intro cr c d hc hd hnf
-    obtain ⟨a, b, cc⟩ := h.connReq cr c d hc hd hnf
-    exact ⟨Nat.lt_of_lt_of_le a s.nextDfd, (hp _ _).mpr b, fun e he => by rw [(s.reqs e.rid).2.1]; exact cc e he⟩
+    obtain ⟨a, cc⟩ := h.connReq cr c d hc hd hnf
+    exact ⟨Nat.lt_of_lt_of_le a s.nextDfd, fun e he => by rw [(s.reqs e.rid).2.1]; exact cc e he⟩
   case connReqInj => rw [s.connReqs]; exact h.connReqInj
   case connReqFresh => rw [s.connReqs]; intro cr c d hc hd; exact Nat.lt_of_lt_of_le (h.connReqFresh cr c d hc hd) s.nextDfd
   case connackOwned =>
@@ -161,11 +161,6 @@ theorem WInvX.sameCore {x : Option Nat} {w w' : World} (h : WInvX x w) (s : Same
     obtain ⟨pr2, a2, _, _, d2, _⟩ := hpr p pr' a'
     rw [a] at a2; injection a2 with a2; subst a2
     exact ⟨pr', a', by rw [d2]; exact b⟩
-  case connectingFresh =>
-    rw [s.connReqs, s.fired]
-    intro p pr' cr c d hp' hs hcq
-    obtain ⟨pr, a, _, c1, _, _, _, _, g, _⟩ := hpr p pr' hp'
-    exact h.connectingFresh p pr cr c d a (by rw [← c1]; exact hs) (by rw [← g]; exact hcq)
   case subArmed =>
     rw [s.ents]; intro e he hb ha; rw [(s.reqs e.rid).2.2] at ha
     obtain ⟨p, pr, a, b, c⟩ := h.subArmed e he hb ha
@@ -249,16 +244,18 @@ theorem dropArmed_inv {x : Option Nat} {w : World} (h : WInvX x w) {e : Ent} (he
     exact ⟨a1, a2, a3, fun t' ht' => (hpending _ _).mpr ⟨a4 t' ht', hne (a4 t' ht') (by simp)⟩⟩
   case pingAlarmOwned => intro t' p hp; exact h.pingAlarmOwned t' p ((hpending _ _).mp hp).1
   case pingLoopOwned => intro t' p hp; exact h.pingLoopOwned t' p ((hpending _ _).mp hp).1
-  case connecting => exact h.connecting
+  case connecting =>
+    intro p pr hp hs
+    obtain ⟨cr, c, i1, i2, i3⟩ := h.connecting p pr hp hs
+    exact ⟨cr, c, i1, i2, fun d hd => ⟨(i3 d hd).1, (hpending _ _).mpr ⟨(i3 d hd).2, hne (i3 d hd).2 (by simp)⟩⟩⟩
   case connReq =>
     intro cr c d hc hd hnf
-    obtain ⟨a1, a2, a3⟩ := h.connReq cr c d hc hd hnf
-    exact ⟨a1, (hpending _ _).mpr ⟨a2, hne a2 (by simp)⟩, fun y hy => a3 y ((hmem y).mp hy).1⟩
+    obtain ⟨a1, a3⟩ := h.connReq cr c d hc hd hnf
+    exact ⟨a1, fun y hy => a3 y ((hmem y).mp hy).1⟩
   case connReqInj => exact h.connReqInj
   case connReqFresh => exact h.connReqFresh
   case connackOwned => intro t' cr hp; exact h.connackOwned t' cr ((hpending _ _).mp hp).1
   case retryLive => intro t' p rid hp; exact h.retryLive t' p rid ((hpending _ _).mp hp).1
-  case connectingFresh => exact h.connectingFresh
   case subArmed => intro y hy; exact h.subArmed y ((hmem y).mp hy).1
   case bufOk => exact h.bufOk
 
@@ -309,7 +306,14 @@ theorem fireD_inv {x : Option Nat} {w : World} (h : WInvX x w) {d : Nat} (hd : d
   case pingTimer => exact h.pingTimer
   case pingAlarmOwned => exact h.pingAlarmOwned
   case pingLoopOwned => exact h.pingLoopOwned
-  case connecting => exact h.connecting
+  case connecting =>
+    intro p pr hp' hs
+    obtain ⟨cr, c, i1, i2, i3⟩ := h.connecting p pr hp' hs
+    refine ⟨cr, c, i1, i2, fun d' hd' => ⟨fun hmem => ?_, (i3 d' hd').2⟩⟩
+    simp only [fireD, List.mem_cons] at hmem
+    rcases hmem with rfl | hmem
+    · exact hcr _ cr c (i3 d' hd').2 i2 hd'
+    · exact (i3 d' hd').1 hmem
   case connReq =>
     intro cr c d' hc hd' hnf
     exact h.connReq cr c d' hc hd' (fun hc' => hnf (by simp [fireD, hc']))
@@ -324,14 +328,6 @@ theorem fireD_inv {x : Option Nat} {w : World} (h : WInvX x w) {d : Nat} (hd : d
     · exact hcr t cr c hpd a1 a2
     · exact a3 hc
   case retryLive => exact h.retryLive
-  case connectingFresh =>
-    intro p pr cr c d' hp' hs hcq hc hd' hmem
-    have hnf := h.connectingFresh p pr cr c d' hp' hs hcq hc hd'
-    simp only [fireD, List.mem_cons] at hmem
-    rcases hmem with rfl | hmem
-    · obtain ⟨_, a2, _⟩ := h.connReq cr c d' hc hd' hnf
-      exact hcr _ cr c a2 hc hd'
-    · exact hnf hmem
   case subArmed => exact h.subArmed
   case bufOk => exact h.bufOk
 
@@ -373,13 +369,12 @@ theorem dropQuiet_inv {x : Option Nat} {w : World} (h : WInvX x w) {e : Ent} (ha
   case connecting => exact h.connecting
   case connReq =>
     intro cr c d hc hd hnf
-    obtain ⟨a1, a2, a3⟩ := h.connReq cr c d hc hd hnf
-    exact ⟨a1, a2, fun y hy => a3 y ((hmem y).mp hy).1⟩
+    obtain ⟨a1, a3⟩ := h.connReq cr c d hc hd hnf
+    exact ⟨a1, fun y hy => a3 y ((hmem y).mp hy).1⟩
   case connReqInj => exact h.connReqInj
   case connReqFresh => exact h.connReqFresh
   case connackOwned => exact h.connackOwned
   case retryLive => exact h.retryLive
-  case connectingFresh => exact h.connectingFresh
   case subArmed => intro y hy; exact h.subArmed y ((hmem y).mp hy).1
   case bufOk => exact h.bufOk
 
@@ -477,16 +472,18 @@ theorem disarm_inv {x : Option Nat} {w : World} (h : WInvX x w) {e : Ent} (he : 
     exact ⟨a1, a2, a3, fun t' ht' => (hpending _ _).mpr ⟨a4 t' ht', hne (a4 t' ht') (by simp)⟩⟩
   case pingAlarmOwned => intro t' p hp; exact h.pingAlarmOwned t' p ((hpending _ _).mp hp).1
   case pingLoopOwned => intro t' p hp; exact h.pingLoopOwned t' p ((hpending _ _).mp hp).1
-  case connecting => exact h.connecting
+  case connecting =>
+    intro p pr hp hs
+    obtain ⟨cr, c, i1, i2, i3⟩ := h.connecting p pr hp hs
+    exact ⟨cr, c, i1, i2, fun d hd => ⟨(i3 d hd).1, (hpending _ _).mpr ⟨(i3 d hd).2, hne (i3 d hd).2 (by simp)⟩⟩⟩
   case connReq =>
     intro cr c d hc hd hnf
-    obtain ⟨a1, a2, a3⟩ := h.connReq cr c d hc hd hnf
-    exact ⟨a1, (hpending _ _).mpr ⟨a2, hne a2 (by simp)⟩, fun y hy => by rw [(hmsg y.rid).2]; exact a3 y hy⟩
+    obtain ⟨a1, a3⟩ := h.connReq cr c d hc hd hnf
+    exact ⟨a1, fun y hy => by rw [(hmsg y.rid).2]; exact a3 y hy⟩
   case connReqInj => exact h.connReqInj
   case connReqFresh => exact h.connReqFresh
   case connackOwned => intro t' cr hp; exact h.connackOwned t' cr ((hpending _ _).mp hp).1
   case retryLive => intro t' p rid hp; exact h.retryLive t' p rid ((hpending _ _).mp hp).1
-  case connectingFresh => exact h.connectingFresh
   case subArmed =>
     intro y hy hb ha
     by_cases hye : y = e
@@ -654,11 +651,14 @@ theorem armed_inv {x : Option Nat} {w : World} (h : WInvX x w) {e : Ent} (he : e
     rcases (hpending _ _).mp hp with ⟨hp1, _⟩ | ⟨_, hp2⟩
     · exact h.pingLoopOwned t' q hp1
     · cases hp2
-  case connecting => exact h.connecting
+  case connecting =>
+    intro q pr hp hs
+    obtain ⟨cr, c, i1, i2, i3⟩ := h.connecting q pr hp hs
+    exact ⟨cr, c, i1, i2, fun d hd => ⟨(i3 d hd).1, hpold (i3 d hd).2 (by simp)⟩⟩
   case connReq =>
     intro cr c d hc hd hnf
-    obtain ⟨a1, a2, a3⟩ := h.connReq cr c d hc hd hnf
-    exact ⟨a1, hpold a2 (by simp), fun y hy => by rw [(hmsg y.rid).2]; exact a3 y hy⟩
+    obtain ⟨a1, a3⟩ := h.connReq cr c d hc hd hnf
+    exact ⟨a1, fun y hy => by rw [(hmsg y.rid).2]; exact a3 y hy⟩
   case connReqInj => exact h.connReqInj
   case connReqFresh => exact h.connReqFresh
   case connackOwned =>
@@ -671,7 +671,6 @@ theorem armed_inv {x : Option Nat} {w : World} (h : WInvX x w) {e : Ent} (he : e
     rcases (hpending _ _).mp hp with ⟨hp1, _⟩ | ⟨_, hp2⟩
     · exact h.retryLive t' q rid hp1
     · injection hp2 with hq' _; subst hq'; exact ⟨ppr, hpp, hlive⟩
-  case connectingFresh => exact h.connectingFresh
   case subArmed =>
     intro y hy hb ha
     by_cases hye : y = e
@@ -846,11 +845,14 @@ theorem addWindow_inv {x : Option Nat} {w : World} (h : WInvX x w) (a : Nat) (bo
     rcases (hpending _ _).mp hp with hp1 | ⟨_, hp2⟩
     · exact h.pingLoopOwned t' q hp1
     · cases hp2
-  case connecting => exact h.connecting
+  case connecting =>
+    intro q pr hp hs
+    obtain ⟨cr, c, i1, i2, i3⟩ := h.connecting q pr hp hs
+    exact ⟨cr, c, i1, i2, fun d hd => ⟨(i3 d hd).1, (hpending _ _).mpr (Or.inl (i3 d hd).2)⟩⟩
   case connReq =>
     intro cr c d' hc hd' hnf
-    obtain ⟨a1, a2, a3⟩ := h.connReq cr c d' hc hd' hnf
-    refine ⟨Nat.lt_of_lt_of_le a1 hnd, (hpending _ _).mpr (Or.inl a2), fun y hy => ?_⟩
+    obtain ⟨a1, a3⟩ := h.connReq cr c d' hc hd' hnf
+    refine ⟨Nat.lt_of_lt_of_le a1 hnd, fun y hy => ?_⟩
     rcases (hmem y).mp hy with hy | rfl
     · rw [hreqo y hy]; exact a3 y hy
     · show (w'.req rid).dfd ≠ some d'
@@ -868,7 +870,6 @@ theorem addWindow_inv {x : Option Nat} {w : World} (h : WInvX x w) (a : Nat) (bo
     rcases (hpending _ _).mp hp with hp1 | ⟨_, hp2⟩
     · exact h.retryLive t' q rid' hp1
     · injection hp2 with hq' _; subst hq'; exact ⟨ppr, hpp, hlive⟩
-  case connectingFresh => exact h.connectingFresh
   case subArmed =>
     intro y hy hb ha
     rcases (hmem y).mp hy with hy | rfl
@@ -997,8 +998,8 @@ theorem addQueue_inv {x : Option Nat} {w : World} (h : WInvX x w) (a rid : Nat) 
   case connecting => exact h.connecting
   case connReq =>
     intro cr c d' hc hd' hnf
-    obtain ⟨a1, a2, a3⟩ := h.connReq cr c d' hc hd' hnf
-    refine ⟨Nat.lt_of_lt_of_le a1 hnd, a2, fun y hy => ?_⟩
+    obtain ⟨a1, a3⟩ := h.connReq cr c d' hc hd' hnf
+    refine ⟨Nat.lt_of_lt_of_le a1 hnd, fun y hy => ?_⟩
     rcases (hmem y).mp hy with hy | rfl
     · rw [hreqo y hy]; exact a3 y hy
     · show (w'.req rid).dfd ≠ some d'
@@ -1008,7 +1009,6 @@ theorem addQueue_inv {x : Option Nat} {w : World} (h : WInvX x w) (a rid : Nat) 
   case connReqFresh => intro cr c d' hc hd'; exact Nat.lt_of_lt_of_le (h.connReqFresh cr c d' hc hd') hnd
   case connackOwned => exact h.connackOwned
   case retryLive => exact h.retryLive
-  case connectingFresh => exact h.connectingFresh
   case subArmed =>
     intro y hy hb ha
     rcases (hmem y).mp hy with hy | rfl
